@@ -76,13 +76,84 @@ fn validate_and_sigs(
     counterparty_sign_holder_commitment(&nctx, cc, &mut t)
 }
 
+const ORACLE_SECRET: [u8; 32] = [2u8; 32];
+
+fn spend_tx(prev: bitcoin::OutPoint, tag: u8) -> bitcoin::Transaction {
+    use bitcoin::{absolute::LockTime, transaction::Version, Amount, ScriptBuf, Sequence, Transaction, TxIn, TxOut, Witness};
+    Transaction {
+        version: Version::TWO,
+        lock_time: LockTime::ZERO,
+        input: vec![TxIn { previous_output: prev, script_sig: ScriptBuf::new(), sequence: Sequence(0xFFFF_FFFD), witness: Witness::default() }],
+        output: vec![TxOut { value: Amount::from_sat(V), script_pubkey: ScriptBuf::from_bytes(vec![0x51, 0x01, tag]) }],
+    }
+}
+
+/// connect a block with the given transactions through the node's tracker, streamed (block_chunk + add_block)
+fn connect_block(fx: &NodeFx, txs: Vec<bitcoin::Transaction>) -> Result<(), String> {
+    use bitcoin::key::Keypair;
+    use bitcoin::secp256k1::{Secp256k1, SecretKey};
+    use bitcoin::{absolute::LockTime, transaction::Version, Amount, OutPoint, ScriptBuf, Sequence, Transaction, TxIn, TxOut, Witness};
+    use lightning_signer::util::test_utils::make_block;
+    use txoo::filter::BlockSpendFilter;
+    use txoo::proof::{ProofType, TxoProof};
+    use txoo::util::sign_attestation;
+    use txoo::Attestation;
+    let secp = Secp256k1::new();
+    let sk = SecretKey::from_slice(&ORACLE_SECRET).unwrap();
+    let keypair = Keypair::from_secret_key(&secp, &sk);
+    let oracle = PublicKey::from_secret_key(&secp, &sk);
+    let (prev, height) = {
+        let t = fx.node.get_tracker();
+        (t.tip.clone(), t.height + 1)
+    };
+    let coinbase = Transaction {
+        version: Version::TWO,
+        lock_time: LockTime::ZERO,
+        input: vec![TxIn {
+            previous_output: OutPoint::null(),
+            script_sig: ScriptBuf::from_bytes(vec![0x03, height as u8, (height >> 8) as u8, 0]),
+            sequence: Sequence::MAX,
+            witness: Witness::default(),
+        }],
+        output: vec![TxOut { value: Amount::from_sat(50), script_pubkey: ScriptBuf::from_bytes(vec![0x51, 0x01, 200]) }],
+    };
+    let mut btx = vec![coinbase];
+    btx.extend(txs);
+    let block = make_block(prev.0, btx);
+    let filter = BlockSpendFilter::from_block(&block);
+    let att = Attestation { block_hash: block.block_hash(), block_height: height, filter_header: filter.filter_header(&prev.1), time: 0 };
+    let atts = vec![(oracle, sign_attestation(att, &keypair, &secp))];
+    let bytes = bitcoin::consensus::serialize(&block);
+    let hash = block.block_hash();
+    let mut tracker = fx.node.get_tracker();
+    let mut off = 0usize;
+    for chunk in bytes.chunks(173) {
+        tracker.block_chunk(hash, off as u32, chunk).map_err(|e| format!("{:?}", e))?;
+        off += chunk.len();
+    }
+    let proof = TxoProof { attestations: atts, proof: ProofType::ExternalBlock() };
+    tracker.add_block(block.header, proof).map_err(|e| format!("{:?}", e))?;
+    fx.node.get_persister().update_tracker(&fx.node.get_id(), &tracker).map_err(|e| format!("{:?}", e))?;
+    Ok(())
+}
+
 fn world() -> World {
+    use bitcoin::secp256k1::{Secp256k1, SecretKey};
     let fx = NodeFx::new(Network::Regtest, None);
+    let oracle = PublicKey::from_secret_key(&Secp256k1::new(), &SecretKey::from_slice(&ORACLE_SECRET).unwrap());
+    fx.node.get_tracker().trusted_oracle_pubkeys = vec![oracle];
     let id1 = new_stub(&fx, 1);
     let id2 = new_stub(&fx, 2);
     let ch3 = new_stub(&fx, 3);
-    let ch1 = ready_channel(&fx, &id1, test_setup(V, 100_000_000, CommitmentType::StaticRemoteKey, 2));
-    let ch2 = ready_channel(&fx, &id2, test_setup(V, 100_000_000, CommitmentType::StaticRemoteKey, 3));
+    // real funding transactions, so that blocks can confirm and spend the funding outputs
+    let fund = |i: u8| spend_tx(bitcoin::OutPoint { txid: bitcoin::Txid::from_slice(&[0x30 + i; 32]).unwrap(), vout: 0 }, i);
+    let (f1, f2) = (fund(1), fund(2));
+    let mut s1 = test_setup(V, 100_000_000, CommitmentType::StaticRemoteKey, 2);
+    s1.funding_outpoint = bitcoin::OutPoint { txid: f1.compute_txid(), vout: 0 };
+    let mut s2 = test_setup(V, 100_000_000, CommitmentType::StaticRemoteKey, 3);
+    s2.funding_outpoint = bitcoin::OutPoint { txid: f2.compute_txid(), vout: 0 };
+    let ch1 = ready_channel(&fx, &id1, s1);
+    let ch2 = ready_channel(&fx, &id2, s2);
     for cc in [&ch1, &ch2] {
         let (cs, hs) = validate_and_sigs(&fx, cc, 0, 2_999_000, 0);
         fx.node
@@ -94,11 +165,24 @@ fn world() -> World {
             })
             .expect("bring channel to commitment 1");
     }
+    connect_block(&fx, vec![f1, f2]).expect("confirm the funding transactions");
     // name the lock instances that matter
     let mut names = HashMap::new();
     for (i, id) in [&id1, &id2, &ch3].iter().enumerate() {
         let arc = fx.node.get_channel(id).unwrap();
         names.insert(&*arc as *const _ as *const () as usize, format!("Slot{}", i + 1));
+    }
+    // ... and each channel's chain monitor state (found by tracing one access)
+    for (i, id) in [&id1, &id2].iter().enumerate() {
+        let tr = Arc::new(Tracer::new(1));
+        set_lock_tracer(Some(tr.clone()));
+        TID.with(|t| t.set(0));
+        fx.node.with_channel(id, |c| Ok(c.monitor.as_chain_state())).unwrap();
+        TID.with(|t| t.set(usize::MAX));
+        set_lock_tracer(None);
+        let evs = tr.events.lock().unwrap().clone();
+        let ev = evs.iter().find(|e| e.class.contains("monitor::State")).expect("monitor state lock seen");
+        names.insert(ev.addr, format!("MonState{}", i + 1));
     }
     World { fx, ch1, ch2, ch3, names }
 }
@@ -120,6 +204,25 @@ fn current_invoice(x: u8, amt: u64) -> lightning_signer::invoice::Invoice {
             .build_signed(|hash| bitcoin::secp256k1::Secp256k1::new().sign_ecdsa_recoverable(hash, &private_key))
             .unwrap(),
     )
+}
+
+fn sweep_tx(w: &World, sequence: u32) -> (bitcoin::Transaction, DerivationPath) {
+    use bitcoin::{absolute::LockTime, transaction::Version, Amount, OutPoint, ScriptBuf, Sequence, Transaction, TxIn, TxOut, Txid, Witness};
+    use lightning_signer::util::test_utils::make_test_funding_wallet_addr;
+    let script = make_test_funding_wallet_addr(&w.fx.node, 1, SpendType::P2wpkh).script_pubkey();
+    let path: DerivationPath = vec![bitcoin::bip32::ChildNumber::from_normal_idx(1).unwrap()].into();
+    let tx = Transaction {
+        version: Version(2),
+        lock_time: LockTime::ZERO,
+        input: vec![TxIn {
+            previous_output: OutPoint { txid: Txid::from_slice(&[0x11; 32]).unwrap(), vout: 0 },
+            script_sig: ScriptBuf::new(),
+            sequence: Sequence(sequence),
+            witness: Witness::default(),
+        }],
+        output: vec![TxOut { value: Amount::from_sat(99_000), script_pubkey: script }],
+    };
+    (tx, path)
 }
 
 fn unknown_id() -> ChannelId {
@@ -193,6 +296,41 @@ fn ops() -> Vec<Op> {
                     c.sign_mutual_close_tx_phase2(2_998_000, 0, &Some(script.clone()), &None, &path)
                 }).map(|_| json!(null)))
             })),
+            (nm("sign_delayed_sweep"), none(), Box::new(move |w| {
+                let cc = pick(w);
+                let (tx, path) = sweep_tx(w, cc.setup.counterparty_selected_contest_delay as u32);
+                st(w.fx.node.with_channel(&cc.channel_id, |c| {
+                    c.sign_delayed_sweep(&tx, 0, 0, &bitcoin::ScriptBuf::new(), 100_000, &path)
+                }).map(|_| json!(null)))
+            })),
+            (nm("sign_justice_sweep"), none(), Box::new(move |w| {
+                let cc = pick(w);
+                let (tx, path) = sweep_tx(w, 0xffff_fffd);
+                st(w.fx.node.with_channel(&cc.channel_id, |c| {
+                    c.sign_justice_sweep(&tx, 0, &tree_secret(&TREE_A, 0), &bitcoin::ScriptBuf::new(), 100_000, &path)
+                }).map(|_| json!(null)))
+            })),
+            (nm("sign_cp_htlc_sweep"), none(), Box::new(move |w| {
+                let cc = pick(w);
+                let (tx, path) = sweep_tx(w, 0xffff_fffd);
+                st(w.fx.node.with_channel(&cc.channel_id, |c| {
+                    c.sign_counterparty_htlc_sweep(&tx, 0, &tree_point(&TREE_A, 1), &bitcoin::ScriptBuf::new(), 100_000, &path)
+                }).map(|_| json!(null)))
+            })),
+            (nm("get_basepoints"), none(), Box::new(move |w| {
+                let cc = pick(w);
+                st(w.fx.node.with_channel_base(&cc.channel_id, |b| Ok(b.get_channel_basepoints())).map(|_| json!(null)))
+            })),
+            (nm("check_future_secret"), none(), Box::new(move |w| {
+                let cc = pick(w);
+                st(w.fx.node.with_channel_base(&cc.channel_id, |b| b.check_future_secret(5, &tree_secret(&TREE_A, 5))).map(|b| json!(b)))
+            })),
+            (nm("add_block_closing"), none(), Box::new(move |w| {
+                // a block that spends this channel's (confirmed) funding output
+                let cc = pick(w);
+                let r = connect_block(&w.fx, vec![spend_tx(cc.setup.funding_outpoint, 0x70 + ch)]);
+                json!({"ok": r.is_ok(), "err": r.err()})
+            })),
             (nm("forget_channel"), none(), Box::new(move |w| {
                 let cc = pick(w);
                 st(w.fx.node.forget_channel(&cc.channel_id).map(|_| json!(null)))
@@ -252,6 +390,28 @@ fn ops() -> Vec<Op> {
         let tx = t.to_tx();
         st(w.fx.node.unchecked_sign_onchain_tx(&tx, &t.ipaths, &t.prev_outs, t.iuckeys.clone()).map(|v| json!(v.len())))
     })));
+    v.push(("persist_all", none(), Box::new(|w| {
+        w.fx.node.persist_all();
+        json!({"ok": true})
+    })));
+    v.push(("sign_bolt11_invoice", none(), Box::new(|w| {
+        let inv = current_invoice(2, 50_000);
+        let raw = match &inv {
+            lightning_signer::invoice::Invoice::Bolt11(b) => b.clone().into_signed_raw(),
+            _ => unreachable!(),
+        };
+        let (raw_invoice, _, _) = raw.into_parts();
+        st(w.fx.node.sign_bolt11_invoice(raw_invoice).map(|_| json!(null)))
+    })));
+    v.push(("sign_node_announcement", none(), Box::new(|w| st(w.fx.node.sign_node_announcement(&[7u8; 64]).map(|_| json!(null))))));
+    v.push(("sign_message", none(), Box::new(|w| st(w.fx.node.sign_message(b"hello").map(|_| json!(null))))));
+    v.push(("ecdh", none(), Box::new(|w| {
+        let _ = w.fx.node.ecdh(&PublicKey::from_slice(&peer_id()).unwrap());
+        json!({"ok": true})
+    })));
+    v.push(("allowlist", none(), Box::new(|w| st(w.fx.node.allowlist().map(|l| json!(l.len()))))));
+    v.push(("has_payment", none(), Box::new(|w| st(w.fx.node.has_payment(&PaymentHash([9u8; 32]), &[9u8; 32]).map(|b| json!(b))))));
+    v.push(("get_chain_height", none(), Box::new(|w| json!({"ok": true, "v": w.fx.node.get_chain_height()}))));
     v.push(("add_block", none(), Box::new(|w| {
         use lightning_signer::util::test_utils::make_testnet_header;
         let mut tracker = w.fx.node.get_tracker();
